@@ -165,6 +165,18 @@ func (g *gen) writeStatementAssign1(b *buffer, op t.ID, lhs *a.Expr, rhs *a.Expr
 				b.printf("wuffs_private_impl__u%d__sat_%s_indirect(&", uBits, uOp)
 				opName, closer = ", ", ")"
 
+			case t.IDTildeModStarEq:
+				// In C, "x *= y" for uint16_t operands multiplies as (signed)
+				// int, and 0xFFFF * 0xFFFF overflows that. A constant y is
+				// written with a "u" suffix, which is already unsigned.
+				if (lTyp.QID() == t.QID{t.IDBase, t.IDU16}) && (lTyp.Decorator() == 0) &&
+					(rhs.ConstValue() == nil) {
+					opName = fmt.Sprintf(" = (uint16_t)(((uint32_t)(%s)) * ", string(lhsBuf))
+					closer = ")"
+					break
+				}
+				fallthrough
+
 			default:
 				opName = cOpName(op)
 				if opName == "" {
